@@ -115,6 +115,12 @@ def run_trees(ctx, run_tree, *, n_random, max_atoms, unary_p=0.3, small_frac=1.0
             break
         tree = gen_tree(rnd, cfg, max_atoms, closure, unary_p)
         run_tree(tree)
+        if rnd.random() < 0.35:
+            # operands that are themselves EmptyMarker / AnyMarker, on either side of either operator
+            for special in (["empty"], ["any"]):
+                for op in ("and", "or"):
+                    run_tree([op, tree, special])
+                    run_tree([op, special, tree])
         if rnd.random() < 0.25 and MW.tree_atoms(tree) <= max_atoms - 2:
             closure.append(tree)
             if len(closure) > 100:
